@@ -46,7 +46,7 @@ func HandleList(deps ServerDeps, conn net.Conn, tag string, parts []string, stat
 		if reference == "" {
 			rootName = ""
 		}
-		deps.SendResponse(conn, fmt.Sprintf("* LIST (\\Noselect) \"%s\" \"%s\"", hierarchyDelimiter, rootName))
+		deps.SendResponse(conn, fmt.Sprintf("* LIST (\\Noselect) \"%s\" %s", hierarchyDelimiter, utils.QuoteString(rootName)))
 		deps.SendResponse(conn, fmt.Sprintf("%s OK LIST completed", tag))
 		return
 	}
@@ -71,7 +71,7 @@ func HandleList(deps ServerDeps, conn net.Conn, tag string, parts []string, stat
 	// Return matching mailboxes
 	for _, mailboxName := range matches {
 		attrs := utils.GetMailboxAttributes(mailboxName)
-		deps.SendResponse(conn, fmt.Sprintf("* LIST (%s) \"/\" \"%s\"", attrs, mailboxName))
+		deps.SendResponse(conn, fmt.Sprintf("* LIST (%s) \"/\" %s", attrs, utils.QuoteString(mailboxName)))
 	}
 
 	// List role mailboxes if user has any assigned
@@ -124,16 +124,16 @@ func HandleList(deps ServerDeps, conn net.Conn, tag string, parts []string, stat
 			// Determine attributes based on the path
 			if matchedPath == "Roles" {
 				// Top-level Roles folder
-				deps.SendResponse(conn, fmt.Sprintf("* LIST (\\Noselect \\HasChildren) \"/\" \"%s\"", matchedPath))
+				deps.SendResponse(conn, fmt.Sprintf("* LIST (\\Noselect \\HasChildren) \"/\" %s", utils.QuoteString(matchedPath)))
 			} else if strings.Count(matchedPath, "/") == 1 {
 				// Roles/email@domain - folder level
-				deps.SendResponse(conn, fmt.Sprintf("* LIST (\\Noselect \\HasChildren) \"/\" \"%s\"", matchedPath))
+				deps.SendResponse(conn, fmt.Sprintf("* LIST (\\Noselect \\HasChildren) \"/\" %s", utils.QuoteString(matchedPath)))
 			} else {
 				// Actual mailbox: Roles/email@domain/INBOX
 				parts := strings.Split(matchedPath, "/")
 				mailboxName := parts[len(parts)-1]
 				attrs := utils.GetMailboxAttributes(mailboxName)
-				deps.SendResponse(conn, fmt.Sprintf("* LIST (%s) \"/\" \"%s\"", attrs, matchedPath))
+				deps.SendResponse(conn, fmt.Sprintf("* LIST (%s) \"/\" %s", attrs, utils.QuoteString(matchedPath)))
 			}
 		}
 	}
@@ -167,7 +167,7 @@ func HandleLsub(deps ServerDeps, conn net.Conn, tag string, parts []string, stat
 		if reference == "" {
 			rootName = ""
 		}
-		deps.SendResponse(conn, fmt.Sprintf("* LSUB (\\Noselect) \"%s\" \"%s\"", hierarchyDelimiter, rootName))
+		deps.SendResponse(conn, fmt.Sprintf("* LSUB (\\Noselect) \"%s\" %s", hierarchyDelimiter, utils.QuoteString(rootName)))
 		deps.SendResponse(conn, fmt.Sprintf("%s OK LSUB completed", tag))
 		return
 	}
@@ -234,13 +234,13 @@ func HandleLsub(deps ServerDeps, conn net.Conn, tag string, parts []string, stat
 
 	// Send implied parents with \Noselect first
 	for parent := range impliedParents {
-		deps.SendResponse(conn, fmt.Sprintf("* LSUB (\\Noselect) \"/\" \"%s\"", parent))
+		deps.SendResponse(conn, fmt.Sprintf("* LSUB (\\Noselect) \"/\" %s", utils.QuoteString(parent)))
 	}
 
 	// Send actual subscribed mailboxes
 	for _, mailboxName := range matches {
 		attrs := utils.GetMailboxAttributes(mailboxName)
-		deps.SendResponse(conn, fmt.Sprintf("* LSUB (%s) \"/\" \"%s\"", attrs, mailboxName))
+		deps.SendResponse(conn, fmt.Sprintf("* LSUB (%s) \"/\" %s", attrs, utils.QuoteString(mailboxName)))
 	}
 
 	// Include role mailboxes in LSUB (auto-subscribed)
@@ -293,16 +293,16 @@ func HandleLsub(deps ServerDeps, conn net.Conn, tag string, parts []string, stat
 			// Determine attributes based on the path
 			if matchedPath == "Roles" {
 				// Top-level Roles folder
-				deps.SendResponse(conn, fmt.Sprintf("* LSUB (\\Noselect \\HasChildren) \"/\" \"%s\"", matchedPath))
+				deps.SendResponse(conn, fmt.Sprintf("* LSUB (\\Noselect \\HasChildren) \"/\" %s", utils.QuoteString(matchedPath)))
 			} else if strings.Count(matchedPath, "/") == 1 {
 				// Roles/email@domain - folder level
-				deps.SendResponse(conn, fmt.Sprintf("* LSUB (\\Noselect \\HasChildren) \"/\" \"%s\"", matchedPath))
+				deps.SendResponse(conn, fmt.Sprintf("* LSUB (\\Noselect \\HasChildren) \"/\" %s", utils.QuoteString(matchedPath)))
 			} else {
 				// Actual mailbox: Roles/email@domain/INBOX
 				parts := strings.Split(matchedPath, "/")
 				mailboxName := parts[len(parts)-1]
 				attrs := utils.GetMailboxAttributes(mailboxName)
-				deps.SendResponse(conn, fmt.Sprintf("* LSUB (%s) \"/\" \"%s\"", attrs, matchedPath))
+				deps.SendResponse(conn, fmt.Sprintf("* LSUB (%s) \"/\" %s", attrs, utils.QuoteString(matchedPath)))
 			}
 		}
 	}
@@ -696,6 +696,6 @@ func HandleStatus(deps ServerDeps, conn net.Conn, tag string, parts []string, st
 	}
 
 	// Send STATUS response
-	deps.SendResponse(conn, fmt.Sprintf("* STATUS \"%s\" (%s)", mailboxName, strings.Join(responseItems, " ")))
+	deps.SendResponse(conn, fmt.Sprintf("* STATUS %s (%s)", utils.QuoteString(mailboxName), strings.Join(responseItems, " ")))
 	deps.SendResponse(conn, fmt.Sprintf("%s OK STATUS completed", tag))
 }
